@@ -7,5 +7,6 @@ CONSTANTS
   DEV_GlobalPrecision = FALSE
   DEV_AccumulatingRoot = TRUE
     DEV_NoTruncate = FALSE
+  DEV_NetworkCached = FALSE
 VIEW View
 PROPERTY PropOwnInputs
